@@ -1,11 +1,183 @@
-"""C18 facts: the switches of `_format_t`, the pickling tables of TType, and the shape of
-Path's sequence methods, read from the AST of glom/core.py; the size limits of the live
-`_BBRepr` instance `bbrepr` is bound to (every literal argument in a T repr is printed by it).
--> lean/Glom/Generated/C18Facts.lean"""
+"""C18 facts: the switches of `_format_t` / `_format_path`, the pickling tables of TType, the shape of
+Path's sequence methods, and the configuration of the live `_BBRepr` instance `bbrepr` is bound to
+(every literal argument in a T repr is printed by it).  -> lean/Glom/Generated/C18Facts.lean
+
+Each fact says what a function of /repo's glom *computes*.  It is established on the imported module by
+a battery of probes (exhaustive over a small scope where the fact is about a family of inputs), not by
+matching the text of the source: behaviour-preserving rewrites of the formatter and of Path's methods
+(helper functions extracted, locals renamed, `%`-formatting turned into f-strings, `sum(steps, ())`
+turned into a generator — the harmless changes H1-c, H4-b, H4-c, H5-b) keep every fact, while any change
+of what is printed / computed on a probe changes it.  The model's agreement with the code on all the
+other inputs is what the correspondence measures.  Only the class `_BBRepr` is also read structurally
+(it must override nothing of reprlib but `__init__` and a `repr1` that defers to `Repr.repr1`)."""
 import ast
+import itertools
+import sys
 
 
-def bbrepr_facts(ctx, tree):
+def _probe(P, what, fn, default):
+    try:
+        return fn()
+    except Exception as e:      # a probe that raises establishes nothing
+        P.add('%s: probe raised %s: %s' % (what, type(e).__name__, str(e)[:120]))
+        return default
+
+
+def format_facts(P, core):
+    """the switches of `_format_t` / `_format_path`, by what is printed"""
+    from glom import T, S, A, Path
+    ft = core._format_t
+
+    def dunder():
+        names = ['__x', '__class__', '__', '___y', '__star__']
+        on = all(ft(('.', n)) == 'T.__(%r)' % n[2:] for n in names)
+        off = all(ft(('.', n)) == 'T.' + n for n in names)
+        if not (on or off) or ft(('.', 'a', '.', '_b')) != 'T.a._b':
+            P.add('_format_t: dunder attributes are printed in an unrecognised way')
+        return on
+
+    def empty_paren():
+        r = ft(('[', ()))
+        if r not in ('T[()]', 'T[]'):
+            P.add('_format_t: the empty tuple index is printed %r' % r)
+        return r == 'T[()]'
+
+    def single_comma():
+        r = ft(('[', (1,)))
+        if r not in ('T[1,]', 'T[1]') or ft(('[', (1, 2))) != 'T[1, 2]' or ft(('[', 1)) != 'T[1]':
+            P.add('_format_t: tuple indexes are printed in an unrecognised way')
+        return r == 'T[1,]'
+
+    def root_aware():
+        cases = [(Path(S.a, 'b'), "Path(S.a, 'b')", "Path(T.a, 'b')"),
+                 (Path(A.a, 'b'), "Path(A.a, 'b')", "Path(T.a, 'b')"),
+                 (Path(S, 'a'), "Path(S, 'a')", "Path('a')"),
+                 (Path(S), 'Path(S)', 'Path()'),
+                 (Path(S.a), 'S.a', 'T.a'),
+                 (Path(S.a, 'b').path_t, "Path(S.a, 'b')", "Path(T.a, 'b')")]
+        got = [repr(p) for p, _, _ in cases]
+        if got == [new for _, new, _ in cases]:
+            return True
+        if got != [old for _, _, old in cases]:
+            P.add('_format_path: the root of a Path is printed in an unrecognised way: %r' % (got,))
+        return False
+
+    def seg_repr():
+        r = repr(Path('a', len))
+        if r == "Path('a', len)":
+            return 'bbrepr'
+        if r == "Path('a', <built-in function len>)":
+            return 'repr'
+        P.add('_format_path: how a plain segment is printed not recognised: %r' % r)
+        return ''
+
+    def runs_marked():
+        # a plain segment that is itself a list is not taken for a run of T steps
+        probes = [(Path([]), 'Path([])'), (Path('a', ['.', 'x']), "Path('a', ['.', 'x'])"),
+                  (Path('a', [1, 2], T.b), "Path('a', [1, 2], T.b)")]
+        try:
+            return all(repr(p) == want for p, want in probes)
+        except Exception:
+            return False
+
+    return (_probe(P, 'fmtDunderGuard', dunder, False), _probe(P, 'fmtTupleEmptyParen', empty_paren, False),
+            _probe(P, 'fmtSingletonComma', single_comma, False), _probe(P, 'fmtPathRootAware', root_aware, False),
+            _probe(P, 'fmtSegRepr', seg_repr, ''), _probe(P, 'fmtPathRunsMarked', runs_marked, False))
+
+
+def pickle_facts(P, core):
+    """the roots `__getstate__` names and `__setstate__` reads back"""
+    from glom import T, S, A
+    getstate, setstate = [], []
+    for name, root in (('T', T), ('S', S), ('A', A)):
+        try:
+            st = root.a['k'].__getstate__()
+            if tuple(st) == (name, '.', 'a', '[', 'k'):
+                getstate.append(name)
+        except Exception:
+            pass
+        try:
+            new = core.TType()
+            new.__setstate__((name, '.', 'a', '[', 'k'))
+            ops = new.__ops__
+            if ops[0] is root and tuple(ops[1:]) == ('.', 'a', '[', 'k'):
+                setstate.append(name)
+        except Exception:
+            pass
+    return getstate, setstate
+
+
+LEN_EXPR = '(len(self.path_t.__ops__) - 1) // 2'
+VALUES_EXPR = 'cur_t_path[2::2]'
+ITEMS_EXPR = 'tuple(zip(cur_t_path[1::2], cur_t_path[2::2]))'
+
+
+def seq_facts(P, core):
+    """`Path.__len__`, `values`, `items`, `__getitem__` against the same operations on the tuple of steps
+    `tuple(zip(ops[1::2], ops[2::2]))`, for paths of 0–4 steps of every kind, every index in [-6, 6] and
+    every slice triple over {None} ∪ [-5, 5] (the names of the facts are historical: they carry the
+    expression each method is equivalent to)"""
+    from glom import T, S, A, Path
+    paths = _probe(P, 'probe paths', lambda: [
+        Path(), Path('a'), Path(T.a, 'b'), Path(S.x, 1, T[2]), Path('p', T.q['r'], 's'),
+        Path(A.u, 'v', T.w), Path(T.a.__star__(), 'b', T.c(1), T[1:2])], None)
+    if paths is None:
+        return False, 'unrecognised', 'unrecognised', 'unrecognised'
+    vals = [None] + list(range(-5, 6))
+
+    def ops_of(p):
+        return p.path_t.__ops__
+
+    def ln():
+        return all(len(p) == (len(ops_of(p)) - 1) // 2 for p in paths)
+
+    def values():
+        return all(tuple(p.values()) == tuple(ops_of(p)[2::2]) and type(p.values()) is tuple for p in paths)
+
+    def items():
+        return all(p.items() == tuple(zip(ops_of(p)[1::2], ops_of(p)[2::2])) for p in paths)
+
+    def getitem():
+        for p in paths:
+            ops = ops_of(p)
+            steps = tuple(zip(ops[1::2], ops[2::2]))
+            keys = list(range(-6, 7)) + [slice(a, b, c) for a, b, c in itertools.product(vals, repeat=3)]
+            for k in keys:
+                try:
+                    want = steps[k] if isinstance(k, slice) else (steps[k],)
+                    want = ('ok', (ops[0],) + tuple(x for st in want for x in st))
+                except IndexError:
+                    want = ('IndexError',)
+                except ValueError:
+                    want = ('ValueError',)
+                try:
+                    r = p[k]
+                    got = ('ok', tuple(r.path_t.__ops__)) if type(r) is Path else ('other',)
+                except IndexError:
+                    got = ('IndexError',)
+                except ValueError:
+                    got = ('ValueError',)
+                if got != want:
+                    return False
+        return True
+
+    def src(name):
+        try:
+            import inspect
+            return 'unrecognised: ' + ' '.join(inspect.getsource(getattr(core.Path, name)).split())[:200]
+        except Exception:
+            return 'unrecognised'
+
+    ok_len = _probe(P, 'pathLenExpr', ln, False)
+    ok_vals = _probe(P, 'pathValuesExpr', values, False)
+    ok_items = _probe(P, 'pathItemsExpr', items, False)
+    return (_probe(P, 'pathGetitemViaSteps', getitem, False),
+            LEN_EXPR if ok_len else src('__len__'),
+            VALUES_EXPR if ok_vals else src('values'),
+            ITEMS_EXPR if ok_items else src('items'))
+
+
+def bbrepr_facts(ctx, tree, core):
     """(names of the int attributes of a stock reprlib.Repr(), int attributes of the instance behind
     glom.core.bbrepr, its fillvalue, whether bbrepr is that instance's reprlib.Repr.repr and
     _BBRepr overrides nothing but __init__ and a repr1 that defers to Repr.repr1)"""
@@ -15,7 +187,6 @@ def bbrepr_facts(ctx, tree):
     stock = sorted(k for k, v in vars(reprlib.Repr()).items() if is_int(v))
     table, fill, ok = [], '', False
     try:
-        import glom.core as core
         # recursive_repr()(_BBRepr().repr): the bound method is a closure cell of the wrapper
         fn = getattr(core.bbrepr, '__wrapped__', None)
         if fn is None:
@@ -36,153 +207,68 @@ def bbrepr_facts(ctx, tree):
             own = sorted(k for k in vars(cls) if k not in ('__module__', '__doc__', '__qualname__',
                                                            '__firstlineno__', '__static_attributes__'))
             shape = getattr(fn, '__func__', None) is reprlib.Repr.repr and own == ['__init__', 'repr1']
-            r1 = ctx['find_def'](tree, 'repr1', cls='_BBRepr')
-            if r1 is None:
-                P.add('_BBRepr.repr1 not found')
+            # what repr1 prints is Repr.repr1's text; only a text starting with '<' is replaced (by the
+            # builtin's name), and only a re-entered object prints '...': probed on the live instance
+            class Odd:
+                def __repr__(self):
+                    return '<odd>'
+            x = []
+            x.append(x)
+            probes = [(inst.repr1(5, 3), '5'), (inst.repr1('a', 3), "'a'"), (inst.repr1(len, 3), 'len'),
+                      (inst.repr1(Odd(), 3), '<odd>'), (inst.repr1([1, (2,)], 3), '[1, (2,)]'),
+                      (inst.repr1(x, 3), '[...]')]
+            if any(a != b for a, b in probes):
+                P.add('_BBRepr.repr1 does not print reprlib\'s text on the probes: %r' % (probes,))
                 shape = False
-            else:
-                src = ast.unparse(r1)
-                rets = [ast.unparse(n.value) for n in ast.walk(r1) if isinstance(n, ast.Return) and n.value]
-                # what is printed is Repr.repr1's text; only a text starting with '<' is replaced
-                # (by the builtin's name), and only a re-entered object prints '...'
-                if not ('ret = Repr.repr1(self, x, level)' in src
-                        and "if not ret.startswith('<'):\n        return ret" in src
-                        and sorted(rets) == sorted(["'...'", 'ret', '_BUILTIN_ID_NAME_MAP.get(id(x), ret)'])):
-                    P.add('_BBRepr.repr1: unrecognised shape')
-                    shape = False
             ok = bool(shape)
     except Exception as e:     # pragma: no cover
         P.add('bbrepr introspection failed: %r' % (e,))
     return stock, table, fill, ok
 
 
-def _find_if(body, pred):
-    for n in body:
-        for m in ast.walk(n):
-            if isinstance(m, ast.If) and pred(m.test):
-                return m
-    return None
-
-
-def _src(node):
-    return ast.unparse(node)
+class _ProbeTimeout(BaseException):
+    pass
 
 
 def extract(ctx):
+    """the probes run under a time limit: a glom whose formatter / Path constructor does not return
+    (a loop that no longer advances) must end in 'nothing established', not in a hanging extractor"""
+    import signal
+
+    def on_alarm(signum, frame):
+        raise _ProbeTimeout()
+    try:
+        old = signal.signal(signal.SIGALRM, on_alarm)
+    except ValueError:          # not in the main thread
+        return _extract(ctx)
+    signal.alarm(60)
+    try:
+        return _extract(ctx)
+    except _ProbeTimeout:
+        ctx['P'].add('the probes of the formatter / Path methods did not return within 60 s')
+        return _extract(ctx, no_probes=True)
+    finally:
+        signal.alarm(0)
+        signal.signal(signal.SIGALRM, old)
+
+
+def _extract(ctx, no_probes=False):
     P = ctx['P']
-    find_def = ctx['find_def']
     tree = ctx['src_tree']('core.py')
-    dunder = empty_paren = single_comma = False
-    ft = find_def(tree, '_format_t')
-    if ft is None:
-        P.add('_format_t not found')
+    try:
+        import glom.core as core
+    except Exception as e:     # pragma: no cover
+        P.add('glom.core cannot be imported: %r' % (e,))
+        core = None
+    if core is None or no_probes:
+        dunder = empty_paren = single_comma = root_aware = runs_marked = via_steps = False
+        seg_repr, getstate, setstate, ln, vals, items = '', [], [], '', '', ''
+        stock, table, fill, is_reprlib = [], [], '', False
     else:
-        dot = _find_if(ft.body, lambda t: _src(t) == "op == '.'")
-        if dot is None:
-            P.add("_format_t: branch op == '.' not found")
-        else:
-            g = _find_if(dot.body, lambda t: _src(t) == "arg.startswith('__')")
-            if g is not None and '.__(%s)' in _src(ast.Module(body=g.body, type_ignores=[])) \
-                    and 'arg[2:]' in _src(ast.Module(body=g.body, type_ignores=[])) \
-                    and "'.' + arg" in _src(ast.Module(body=g.orelse, type_ignores=[])):
-                dunder = True
-        br = _find_if(ft.body, lambda t: _src(t) == "op == '['")
-        if br is None:
-            P.add("_format_t: branch op == '[' not found")
-        else:
-            tup = _find_if(br.body, lambda t: _src(t) == 'type(arg) is tuple')
-            if tup is None:
-                P.add("_format_t: 'type(arg) is tuple' test not found")
-            else:
-                e = _find_if(tup.body, lambda t: _src(t) == 'not arg')
-                if e is not None and "index = '()'" in _src(ast.Module(body=e.body, type_ignores=[])):
-                    empty_paren = True
-                c = _find_if(tup.body, lambda t: _src(t) == 'len(arg) == 1')
-                if c is not None and "index += ','" in _src(ast.Module(body=c.body, type_ignores=[])):
-                    single_comma = True
-
-    # _format_path(t_path, root): is the root passed in and written as (the start of) the first part?
-    root_aware = False
-    seg_repr = ''
-    fp = find_def(tree, '_format_path')
-    pr = find_def(tree, '__repr__', cls='Path')
-    if fp is None or pr is None or ft is None:
-        P.add('_format_path / Path.__repr__ not found')
-    else:
-        fp_src = _src(fp)
-        new_shape = all(x in fp_src for x in [
-            'first_root = root if root is not T else None',
-            'if cur_t_path or (first_root is not None and (not path_parts)):',
-            'if not path_parts and first_root is not None:',
-            '_format_t(part, root if n == 0 else T)',
-            'return _format_t(cur_t_path, root)'])
-        old_shape = ([a.arg for a in fp.args.args] == ['t_path'] and '_format_t(part)' in fp_src
-                     and 'return _format_t(cur_t_path)' in fp_src and 'if cur_t_path:' in fp_src)
-        repr_new = 'return _format_path(self.path_t.__ops__[1:], self.path_t.__ops__[0])' in _src(pr)
-        repr_old = 'return _format_path(self.path_t.__ops__[1:])' in _src(pr)
-        t_new = 'return _format_path(path, root)' in _src(ft)
-        t_old = 'return _format_path(path)' in _src(ft)
-        # the function a plain segment is printed with (the model follows either)
-        if 'else repr(part)' in fp_src:
-            seg_repr = 'repr'
-        elif 'else bbrepr(part)' in fp_src:
-            seg_repr = 'bbrepr'
-        else:
-            P.add('_format_path: how a plain segment is printed not recognised')
-        if new_shape and repr_new and t_new:
-            root_aware = True
-        elif old_shape and repr_old and t_old:
-            root_aware = False
-        else:
-            P.add('_format_path / Path.__repr__: unrecognised shape')
-
-    def dict_names(fn_name):
-        fn = find_def(tree, fn_name, cls='TType')
-        if fn is None:
-            P.add('TType.%s not found' % fn_name)
-            return []
-        out = []
-        for n in ast.walk(fn):
-            if isinstance(n, ast.Dict):
-                for k, v in zip(n.keys, n.values):
-                    if isinstance(k, ast.Name) and isinstance(v, ast.Constant) and k.id == v.value:
-                        out.append(v.value)
-                    elif isinstance(k, ast.Constant) and isinstance(v, ast.Name) and k.value == v.id:
-                        out.append(k.value)
-        return out
-
-    getstate = dict_names('__getstate__')
-    setstate = dict_names('__setstate__')
-
-    def ret_expr(name):
-        fn = find_def(tree, name, cls='Path')
-        if fn is None:
-            P.add('Path.%s not found' % name)
-            return ''
-        rets = [n for n in ast.walk(fn) if isinstance(n, ast.Return) and n.value is not None]
-        if len(rets) != 1:
-            P.add('Path.%s: expected one return' % name)
-            return ''
-        return _src(rets[0].value)
-
-    via_steps = False
-    gi = find_def(tree, '__getitem__', cls='Path')
-    if gi is None:
-        P.add('Path.__getitem__ not found')
-    else:
-        src = [_src(n) for n in gi.body if not (isinstance(n, ast.Expr) and isinstance(n.value, ast.Constant))]
-        want = ['cur_t_path = self.path_t.__ops__',
-                'steps = tuple(zip(cur_t_path[1::2], cur_t_path[2::2]))']
-        tail = ['new_t = TType()', 'new_t.__ops__ = (cur_t_path[0],) + sum(steps, ())', 'return Path(new_t)']
-        mid = [s for s in src if s not in want and s not in tail]
-        ok_mid = (len(mid) == 1 and mid[0].startswith('if isinstance(i, slice):')
-                  and 'steps = steps[i]' in mid[0] and 'steps = (steps[i],)' in mid[0]
-                  and 'except IndexError' in mid[0])
-        via_steps = src[:2] == want and src[-3:] == tail and ok_mid
-    vals = ret_expr('values')
-    items = ret_expr('items')
-    ln = ret_expr('__len__')
-    stock, table, fill, is_reprlib = bbrepr_facts(ctx, tree)
+        dunder, empty_paren, single_comma, root_aware, seg_repr, runs_marked = format_facts(P, core)
+        getstate, setstate = _probe(P, 'pickling tables', lambda: pickle_facts(P, core), ([], []))
+        via_steps, ln, vals, items = seq_facts(P, core)
+        stock, table, fill, is_reprlib = bbrepr_facts(ctx, tree, core)
     return [('C18Facts', '_format_t switches, TType pickling tables, Path sequence methods (C18)', [
         ('fmtDunderGuard', 'Bool', dunder),
         ('fmtTupleEmptyParen', 'Bool', empty_paren),
@@ -200,4 +286,6 @@ def extract(ctx):
         ('bbreprFillvalue', 'String', fill),
         ('bbreprIsReprlib', 'Bool', is_reprlib),
         ('fmtSegRepr', 'String', seg_repr),
+        ('fmtPathRunsMarked', 'Bool', runs_marked),
+        ('sysMaxsize', 'Nat', sys.maxsize),
     ])]
